@@ -488,6 +488,15 @@ class World(object):
             self.service.startService()
             self.site = self.reactor.tcpServers[-1][1]
             self.site.reactor = self.reactor
+            # the websocket factory's own reactor attribute ("for tests to control")
+            try:
+                ch = getattr(self.site.resource, "children", {})
+                for res in ch.values():
+                    f = getattr(res, "_factory", None)
+                    if f is not None and hasattr(f, "reactor"):
+                        f.reactor = self.reactor
+            except Exception:
+                pass
             self.running = True
             self.sweep_alive = self._sweep_pending()
         except Exception as e:
